@@ -248,6 +248,9 @@ fn main() {
         "conn-sweep" => cmd_conn_sweep(&a),
         "net-replay" => cmd_net_replay(&a),
         "wire-replay" => wire::cmd_wire_replay(&a),
+        "wire-fuzz" => wire::cmd_wire_fuzz(&a),
+        "wire-cross" => wire::cmd_wire_cross(&a),
+        "wire-dec" => wire::cmd_wire_dec(&a),
         "net-trace" => cmd_net_trace(&a),
         _ => {
             eprintln!("usage: lfsverif <command> ...");
